@@ -1,9 +1,12 @@
-// C11 driver: c11_forces s0 s1
-// Builds mjgen models for seeds s0..s1-1 with every solver / cone, steps them and, at a few sample points, runs
+// C11 driver: c11_forces s0 s1            (mjgen family)
+//             c11_forces isl s0 s1        (island family: several disconnected trees / free bodies, each its own
+//                                          constraint island, with different frictionloss / friction / condim per
+//                                          island, saturating applied loads, noslip and per-island solvers)
+// Builds models for seeds s0..s1-1 with every solver / cone, steps them and, at a few sample points, runs
 // mj_forward and prints everything needed to judge admissibility of efc_force, qfrc_constraint = J' efc_force,
 // mj_contactForce and the pyramid encode/decode pair.  All doubles as C99 hex floats.
 // record (one line):
-//  F seed cone solver noslip island adhes step nv ne nf nefc ncon niter
+//  F seed cone solver noslip island adhes step nv ne nf nefc ncon niter nisland
 //    type[nefc] id[nefc] floss[nefc] force[nefc] D[nefc] R[nefc] jar[nefc] state[nefc]
 //    qfrc_constraint[nv] JTf[nv]
 //    {dim mu fr[5] adr adhesion cf[6] rt[6]}[ncon]     (cf = mj_contactForce; rt = decode(encode(decode(edges))) for
@@ -17,8 +20,8 @@ static void dump(const mjModel* m, mjData* d, int seed, int noslip, int island, 
   int nefc = d->nefc, nv = m->nv;
   int niter = 0;
   for (int i = 0; i < mjMAX(1, d->nisland) && i < mjNISLAND; i++) niter += d->solver_niter[i];
-  printf("F %d %d %d %d %d %d %d %d %d %d %d %d %d", seed, m->opt.cone, m->opt.solver, noslip, island, adhes, step, nv, d->ne, d->nf,
-         nefc, d->ncon, niter);
+  printf("F %d %d %d %d %d %d %d %d %d %d %d %d %d %d", seed, m->opt.cone, m->opt.solver, noslip, island, adhes, step, nv, d->ne, d->nf,
+         nefc, d->ncon, niter, d->nisland);
   int cap = nefc > 0 ? nefc : 1;
   mjtNum* jar = malloc(sizeof(mjtNum) * cap);
   mjtNum* jtf = calloc(nv > 0 ? nv : 1, sizeof(mjtNum));
@@ -55,7 +58,130 @@ static void dump(const mjModel* m, mjData* d, int seed, int noslip, int island, 
   free(jar); free(jtf);
 }
 
+// ---------------------------------------------------------------- island family
+// Everything is a deterministic function of the seed.  Trees are placed far apart and their geoms do not collide,
+// so every tree with an active constraint and every resting free body is a separate island; the island-local
+// position of a row then differs from its efc index.
+static mjModel* isl_model(int seed, int* o_noslip, int* o_island) {
+  mjg_rng R = {(uint64_t)seed * 0x9E3779B97F4A7C15ULL + 99}; mjg_rng* r = &R;
+  mjSpec* s = mj_makeSpec();
+  s->option.solver = seed % 3;
+  s->option.cone = (seed / 3) % 2 ? mjCONE_ELLIPTIC : mjCONE_PYRAMIDAL;
+  { static const int ns[6] = {20, 5, 0, 20, 3, 50}; *o_noslip = ns[(seed / 6) % 6]; }
+  s->option.noslip_iterations = *o_noslip;
+  s->option.noslip_tolerance = mjg_chance(r, 0.5) ? 0 : 1e-12;
+  s->option.iterations = 200; s->option.tolerance = 1e-10;
+  { static const double ir[4] = {1, 1, 0.4, 6}; s->option.impratio = ir[mjg_int(r, 4)]; }
+  *o_island = (seed % 8 != 7);
+  if (!*o_island) s->option.disableflags |= mjDSBL_ISLAND;
+  mjsBody* world = mjs_findBody(s, "world");
+  mjsGeom* plane = mjs_addGeom(world, NULL); plane->type = mjGEOM_PLANE; plane->size[0] = 50; plane->size[1] = 50; plane->size[2] = 0.1;
+  int ntree = 2 + mjg_int(r, 4), njnt = 0, nten = 0;
+  int pattern = mjg_int(r, 4);         // frictionloss across trees: ascending, descending, random, few large among small
+  for (int t = 0; t < ntree; t++) {
+    mjsBody* parent = world;
+    int len = 1 + mjg_int(r, 3);
+    char first[16] = "", last[16] = ""; int nj_tree = 0;
+    char names[8][16];
+    for (int k = 0; k < len; k++) {
+      mjsBody* b = mjs_addBody(parent, NULL);
+      if (k == 0) { b->pos[0] = 3.0 * (t + 1); b->pos[1] = 3.0 * (t % 2); b->pos[2] = 3; } else { b->pos[2] = -0.4; b->pos[0] = 0.05; }
+      int nj = mjg_chance(r, 0.15) && k > 0 ? 0 : 1 + (mjg_chance(r, 0.3) ? 1 : 0);   // jointless and two-joint bodies
+      for (int q = 0; q < nj; q++) {
+        mjsJoint* j = mjs_addJoint(b, NULL);
+        char nm[16]; snprintf(nm, sizeof(nm), "j%d", njnt++); mjs_setName(j->element, nm);
+        if (nj_tree < 8) snprintf(names[nj_tree], 16, "%s", nm);
+        nj_tree++;
+        j->type = mjg_chance(r, 0.3) ? mjJNT_SLIDE : mjJNT_HINGE;
+        j->axis[0] = q; j->axis[1] = 1 - q; j->axis[2] = mjg_chance(r, 0.3) ? 0.5 : 0;
+        double fl;
+        switch (pattern) {
+          case 0: fl = 0.2 * (1 << t) * (1 + 0.3 * k); break;
+          case 1: fl = 0.2 * (1 << (ntree - 1 - t)) * (1 + 0.3 * k); break;
+          case 2: fl = pow(10, mjg_range(r, -2, 1)); break;
+          default: fl = (t == mjg_int(r, ntree)) ? 8 : 0.05; break;
+        }
+        if (mjg_chance(r, 0.15)) fl = 0;                 // rows without friction loss shift the index spaces
+        j->frictionloss = fl;
+        if (mjg_chance(r, 0.5)) { j->limited = mjLIMITED_TRUE; j->range[0] = -mjg_range(r, 0.05, 0.6); j->range[1] = mjg_range(r, 0.05, 0.6); }
+        j->damping[0] = mjg_range(r, 0, 0.2); j->armature = mjg_range(r, 0, 0.05);
+      }
+      mjsGeom* g = mjs_addGeom(b, NULL); g->type = mjGEOM_CAPSULE; g->size[0] = 0.04;
+      g->fromto[0] = 0; g->fromto[1] = 0; g->fromto[2] = 0; g->fromto[3] = 0; g->fromto[4] = 0; g->fromto[5] = -0.35;
+      g->contype = 0; g->conaffinity = 0; g->density = mjg_range(r, 300, 2000);
+      parent = b;
+    }
+    (void)first; (void)last;
+    if (nj_tree >= 1 && mjg_chance(r, 0.5)) {          // a fixed tendon inside the tree, with its own friction loss / limit
+      mjsTendon* tn = mjs_addTendon(s, NULL); char nm[16]; snprintf(nm, sizeof(nm), "t%d", nten++); mjs_setName(tn->element, nm);
+      int nw = nj_tree < 8 ? nj_tree : 8;
+      for (int w = 0; w < nw; w++) mjs_wrapJoint(tn, names[w], mjg_range(r, 0.3, 1.5) * (mjg_chance(r, 0.3) ? -1 : 1));
+      tn->frictionloss = pow(10, mjg_range(r, -2, 1));
+      if (mjg_chance(r, 0.5)) { tn->limited = mjLIMITED_TRUE; tn->range[0] = -0.3; tn->range[1] = 0.3; }
+    }
+  }
+  int nball = mjg_int(r, 4);
+  for (int k = 0; k < nball; k++) {                     // resting free bodies: one contact island each
+    mjsBody* b = mjs_addBody(world, NULL);
+    double rad = mjg_range(r, 0.05, 0.15), pen = mjg_chance(r, 0.3) ? mjg_range(r, 0.005, 0.04) : mjg_range(r, 0, 0.002);
+    b->pos[0] = -3.0 * (k + 1); b->pos[1] = 2.0 * k; b->pos[2] = rad - pen;
+    mjs_addFreeJoint(b);
+    mjsGeom* g = mjs_addGeom(b, NULL);
+    int gt = mjg_int(r, 3);
+    g->type = gt == 0 ? mjGEOM_SPHERE : gt == 1 ? mjGEOM_BOX : mjGEOM_CAPSULE;
+    g->size[0] = rad; g->size[1] = rad * (gt == 2 ? 1.5 : 1); g->size[2] = rad;
+    if (gt == 2) { b->quat[0] = 0.7071067811865476; b->quat[1] = 0; b->quat[2] = 0.7071067811865476; b->quat[3] = 0; }
+    { static const int dims[4] = {1, 3, 4, 6}; g->condim = dims[mjg_int(r, 4)]; }
+    g->friction[0] = mjg_range(r, 0.1, 1.5); g->friction[1] = mjg_range(r, 0.001, 0.2); g->friction[2] = mjg_range(r, 0.0001, 0.05);
+    g->priority = 1;                                    // the body's own friction / condim win over the plane's
+  }
+  mjModel* m = mj_compile(s, NULL);
+  if (!m) fprintf(stderr, "isl: compile failed seed=%d: %s\n", seed, mjs_getError(s));
+  mj_deleteSpec(s);
+  return m;
+}
+
+static int run_isl(int s0, int s1) {
+  mjg_install_handlers();
+  for (int seed = s0; seed < s1; seed++) {
+    int noslip = 0, island = 1;
+    mjModel* m = isl_model(seed, &noslip, &island);
+    if (!m) { printf("X %d compile\n", seed); continue; }
+    mjData* d = mj_makeData(m);
+    mjg_rng r = {(uint64_t)seed * 40503ULL + 5};
+    if (MJG_TRY) {
+      for (int st = 0; st < 3; st++) {
+        // saturating loads on the jointed trees, pushes and spins on the free bodies
+        for (int j = 0; j < m->njnt; j++) {
+          int a = m->jnt_dofadr[j];
+          if (m->jnt_type[j] == mjJNT_FREE) {
+            for (int k = 0; k < 2; k++) d->qfrc_applied[a + k] = mjg_range(&r, -6, 6);
+            d->qfrc_applied[a + 2] = -mjg_range(&r, 0, 5);
+            for (int k = 3; k < 6; k++) d->qfrc_applied[a + k] = mjg_range(&r, -0.3, 0.3);
+          } else {
+            double mag = mjg_chance(&r, 0.7) ? mjg_range(&r, 5, 60) : mjg_range(&r, 0, 1);
+            d->qfrc_applied[a] = (mjg_chance(&r, 0.5) ? 1 : -1) * mag;
+            if (st > 0) d->qvel[a] = mjg_range(&r, -2, 2);
+          }
+        }
+        for (int k = 0; k < 3; k++) mj_step(m, d);
+        mj_forward(m, d);
+        if (d->nefc > 0 && d->nefc <= 200) dump(m, d, 1000000 + seed, noslip, island, 0, st);
+      }
+      MJG_END;
+    } else { printf("X %d error %s\n", seed, mjg_last_error); }
+    mj_deleteData(d); mj_deleteModel(m);
+  }
+  return 0;
+}
+
 int main(int argc, char** argv) {
+  if (argc >= 4 && !strcmp(argv[1], "isl")) return run_isl(atoi(argv[2]), atoi(argv[3]));
+  if (argc >= 2 && !strcmp(argv[1], "clip")) {          // stdin: triples x lo hi (hex floats) -> mju_clip(x, lo, hi)
+    char a[64], b[64], c[64];
+    while (scanf("%63s %63s %63s", a, b, c) == 3) printf("%a\n", mju_clip(strtod(a, NULL), strtod(b, NULL), strtod(c, NULL)));
+    return 0;
+  }
   if (argc < 3) { fprintf(stderr, "usage: c11_forces s0 s1\n"); return 2; }
   int s0 = atoi(argv[1]), s1 = atoi(argv[2]);
   mjg_install_handlers();
@@ -69,7 +195,7 @@ int main(int argc, char** argv) {
     m->opt.cone = (seed % 2) ? mjCONE_ELLIPTIC : mjCONE_PYRAMIDAL;
     m->opt.solver = (seed / 2) % 3;      // mjSOL_PGS, mjSOL_CG, mjSOL_NEWTON
     { static const double ir[5] = {1, 1, 0.3, 4.5, 17}; m->opt.impratio = ir[mjg_int(&r, 5)]; }
-    int noslip = (seed % 7 == 0) ? 3 : 0;
+    int noslip = (seed % 7 == 0) ? 3 : (seed % 5 == 2) ? 20 : 0;
     m->opt.noslip_iterations = noslip;
     int island = (seed % 5 != 0);
     if (!island) m->opt.disableflags |= mjDSBL_ISLAND;
@@ -81,6 +207,7 @@ int main(int argc, char** argv) {
     m->opt.tolerance = 1e-10; m->opt.iterations = 200;
     mjData* d = mj_makeData(m);
     mjg_random_state(m, d, &r, 1.0);
+    if (seed % 4 == 3) for (int i = 0; i < m->nv; i++) d->qfrc_applied[i] = mjg_range(&r, -40, 40);   // saturating loads
     if (MJG_TRY) {
       int done = 0;
       for (int step = 0; step <= 60 && done < 3; step++) {
